@@ -101,6 +101,11 @@ func (px *proxy) pump(d int, src, dst net.Conn) {
 			time.Sleep(5 * time.Millisecond)
 		}
 		n, err := src.Read(buf)
+		if px.stalled.Load() {
+			// a stopped peer: what was just read stays unprocessed, nothing more is read
+			<-px.cutC
+			return
+		}
 		if n > 0 {
 			if !px.forward(d, src, dst, buf[:n]) {
 				return
